@@ -119,7 +119,8 @@ def run_property(prop: str, tier: str, repo: str, seed: int, args) -> int:
         elif st == "refuted" and all(o["meta"].get("protocol") for _, o in by_oid[oid] if o["verdict"] == "refuted"):
             # hand-over clause between two blocks of a traversal: its failure says the lemma no longer matches how the code
             # schedules its work, not that a result is wrong
-            undecided.append(f"{oid}: traversal protocol clause does not match the code (block lemma needs re-alignment)")
+            undecided.append(f"{oid}: the proof does not cover this code as it stands (a hand-over clause between proof blocks, or a "
+                             "function / table the sidecar has no contract for); not a counterexample")
         elif st == "refuted":
             plain = [o for _, o in by_oid[oid] if o["verdict"] == "refuted"]
             kf = replay_mod.match_known_plain(known, oid, plain)
